@@ -14,9 +14,9 @@ Definition runtime_config_route_current : route :=
   mk_route "query-runtime-config" "GET" "/runtime_config" "runtimecfg.RuntimeConfigHandler(s.runtimeCfgService, c.Limits)" SigPlain
            "s.runtimeCfgService != nil".
 Definition prefixes_current : list prefix_rule :=
-  [mk_prefix "/debug/pprof" "h.Config.PprofEnabled" "h.handleProfiles" true;
-   mk_prefix "/debug/vars" "" "h.serveExpvar" true;
-   mk_prefix "/debug/query" "" "h.serveDebugQuery" true].
+  [mk_prefix "/debug/pprof" "h.Config.PprofEnabled" "h.handleProfiles" true false [];
+   mk_prefix "/debug/vars" "" "h.serveExpvar" true false [];
+   mk_prefix "/debug/query" "" "h.serveDebugQuery" true false []].
 Definition cfg_on : config := mk_config true false [].
 Definition one_admin : list user := [mk_user "root" "rootpw" true false []].
 Definition anonymous : request := mk_request (mk_creds_in "" "" HNone) "".
@@ -119,3 +119,12 @@ Theorem C19_cardinality_refuted_each :
     [("ShowTagKeyCardinalityStatement", true); ("ShowTagKeyCardinalityStatement", false); ("ShowFieldKeyCardinalityStatement", false);
      ("ShowTagValuesCardinalityStatement", false); ("ShowSeriesCardinalityStatement", true); ("ShowMeasurementCardinalityStatement", true)] = true.
 Proof. vm_compute. reflexivity. Qed.
+
+(* ... and with fix6.patch (the three prefixes behind authenticate, administrator only) the same anonymous request is refused *)
+Definition prefixes_repaired : list prefix_rule :=
+  map (fun p => mk_prefix (p_prefix p) (p_guard p) (p_callee p) true true ["admin"]) prefixes_current.
+Theorem C19_debug_prefix_repaired :
+  forallb (fun path => match serve_path shape_current cfg_on ["h.Config.PprofEnabled"] prefixes_repaired one_admin path
+                               (mk_route "none" "GET" path "" SigUser "") KOpaque anonymous with (401, []) => true | _ => false end)
+          ["/debug/vars"; "/debug/query"; "/debug/pprof/heap"] = true /\ unexempt_prefixes [] prefixes_repaired = [].
+Proof. vm_compute. split; reflexivity. Qed.
